@@ -721,6 +721,15 @@ func FromV3(doc3 *openapi3.T) (*openapi2.T, error) {
 	if isHTTP {
 		doc2.Schemes = append(doc2.Schemes, "http")
 	}
+	// the two other schemes OpenAPI 2 knows
+	for _, scheme := range []string{"wss", "ws"} {
+		for _, server := range servers {
+			if parsedURL, err := url.Parse(server.URL); err == nil && parsedURL.Scheme == scheme {
+				doc2.Schemes = append(doc2.Schemes, scheme)
+				break
+			}
+		}
+	}
 
 	for path, pathItem := range doc3.Paths.Map() {
 		if pathItem == nil {
